@@ -5,6 +5,8 @@ import (
 	"context"
 	"errors"
 	"fmt"
+	proto2 "google.golang.org/protobuf/proto"
+	"google.golang.org/protobuf/types/known/structpb"
 	"io"
 	"net/http"
 	"net/http/httptest"
@@ -426,10 +428,151 @@ func requestReuseProbe(c *Ctx) {
 	}
 }
 
+// blockCompressor compresses like RLE but refuses blocks of more than 64 bytes - when it is
+// closed, that is: after it has taken all of its input (as a real block format that fails in
+// flush does).
+type blockCompressor struct {
+	inner connect.Compressor
+	n     int
+}
+
+func (b *blockCompressor) Write(p []byte) (int, error) { b.n += len(p); return b.inner.Write(p) }
+func (b *blockCompressor) Close() error {
+	if b.n > 64 {
+		return errors.New("block too large")
+	}
+	return b.inner.Close()
+}
+func (b *blockCompressor) Reset(w io.Writer) { b.n = 0; b.inner.Reset(w) }
+
+// failedSendProbe (C01, oracle only): the receiver gets exactly the messages whose Send
+// returned nil - also when the compressor fails for one of them after it has consumed it: that
+// Send reports the failure; nothing (and certainly not an empty message) goes out in its place
+// (round 11, C01-mo).
+func failedSendProbe(c *Ctx) {
+	newBlock := func() connect.Compressor { return &blockCompressor{inner: newRLECompressor()} }
+	msgs := [][]byte{[]byte("first"), bytes.Repeat([]byte{9}, 100), []byte("third"), {}, []byte("fifth")}
+	for _, proto := range []string{"connect", "grpc", "grpcweb"} {
+		for _, dir := range []string{"client-stream", "server-stream"} {
+			desc := fmt.Sprintf("%s %s of 5 messages through a compressor that fails in Close for the 100-byte second one", proto, dir)
+			c.Begin(desc)
+			c.Count("failing-compressor-probe")
+			got := safely(func() string {
+				var sentOK, received [][]byte
+				copts := append(protoOpts(proto), connect.WithCodec(rawCodec{"raw"}), connect.WithAcceptCompression("blk", newRLEDecompressor, newBlock), connect.WithSendCompression("blk"), connect.WithCompressMinBytes(0))
+				hopts := []connect.HandlerOption{connect.WithCodec(rawCodec{"raw"}), connect.WithCompression("blk", newRLEDecompressor, newBlock), connect.WithCompressMinBytes(0)}
+				if dir == "client-stream" {
+					h := connect.NewClientStreamHandler("/s/m", func(ctx context.Context, s *connect.ClientStream[[]byte]) (*connect.Response[[]byte], error) {
+						for s.Receive() {
+							received = append(received, append([]byte{}, (*s.Msg())...))
+						}
+						return connect.NewResponse(&[]byte{1}), nil
+					}, hopts...)
+					cl := connect.NewClient[[]byte, []byte](&inprocClient{h: h}, "http://h/s/m", copts...)
+					st := cl.CallClientStream(context.Background())
+					for _, m := range msgs {
+						m := m
+						if err := st.Send(&m); err == nil {
+							sentOK = append(sentOK, m)
+						}
+					}
+					_, _ = st.CloseAndReceive()
+				} else {
+					h := connect.NewServerStreamHandler("/s/m", func(ctx context.Context, r *connect.Request[[]byte], s *connect.ServerStream[[]byte]) error {
+						for _, m := range msgs {
+							m := m
+							if err := s.Send(&m); err == nil {
+								sentOK = append(sentOK, m)
+							}
+						}
+						return nil
+					}, hopts...)
+					cl := connect.NewClient[[]byte, []byte](&inprocClient{h: h}, "http://h/s/m", copts...)
+					st, err := cl.CallServerStream(context.Background(), connect.NewRequest(&[]byte{1}))
+					if err != nil {
+						return "call: " + err.Error()
+					}
+					for st.Receive() {
+						received = append(received, append([]byte{}, (*st.Msg())...))
+					}
+					_ = st.Close()
+				}
+				if len(sentOK) == len(msgs) {
+					return "every Send returned nil, the one whose compressor failed included"
+				}
+				if len(received) > len(sentOK) {
+					return fmt.Sprintf("received %d messages, %d Sends returned nil", len(received), len(sentOK))
+				}
+				for i := range received {
+					if !bytes.Equal(received[i], sentOK[i]) {
+						return fmt.Sprintf("message %d arrived as %x, sent as %x", i+1, received[i], sentOK[i])
+					}
+				}
+				return "ok"
+			})
+			if got != "ok" {
+				c.Fail("e2e-failed-send-delivered", desc, got, "the receiver yields the messages whose Send returned nil, in order - nothing in place of one whose Send failed")
+			}
+		}
+	}
+}
+
+// deepMessageProbe (C01, oracle only): "regardless of ... content": a message nested a few
+// hundred levels deep that the sender's codec encodes is decoded by the receiver's (the binary
+// and the JSON codec of the library; round 11, C01-mp: a decode-side recursion limit below the
+// encoder's).
+func deepMessageProbe(c *Ctx) {
+	deep := func(levels int) *structpb.Value {
+		v := structpb.NewStringValue("core")
+		for i := 0; i < levels; i++ {
+			v = structpb.NewListValue(&structpb.ListValue{Values: []*structpb.Value{v}})
+		}
+		return v
+	}
+	h := connect.NewUnaryHandler("/s/m", func(ctx context.Context, r *connect.Request[structpb.Value]) (*connect.Response[structpb.Value], error) {
+		return connect.NewResponse(r.Msg), nil
+	})
+	for _, proto := range []string{"connect", "grpc", "grpcweb"} {
+		for _, levels := range []int{40, 60, 400} {
+			desc := fmt.Sprintf("%s unary echo of a google.protobuf.Value nested %d lists deep, binary codec", proto, levels)
+			c.Begin(desc)
+			c.Count("deep-message-probe")
+			got := safely(func() string {
+				cl := connect.NewClient[structpb.Value, structpb.Value](&inprocClient{h: h}, "http://h/s/m", protoOpts2(proto)...)
+				msg := deep(levels)
+				res, err := cl.CallUnary(context.Background(), connect.NewRequest(msg))
+				if err != nil {
+					return "call: " + codeName(err)
+				}
+				if !proto2.Equal(res.Msg, msg) {
+					return "the echo differs from the message"
+				}
+				return "ok"
+			})
+			if got != "ok" {
+				c.Fail("e2e-deep-message", desc, got, "what the sender's codec encodes, the receiver's decodes")
+			}
+		}
+	}
+}
+
+// protoOpts2: the protocol option alone (the library's own codecs).
+func protoOpts2(proto string) []connect.ClientOption {
+	switch proto {
+	case "grpc":
+		return []connect.ClientOption{connect.WithGRPC()}
+	case "grpcweb":
+		return []connect.ClientOption{connect.WithGRPCWeb()}
+	}
+	return nil
+}
+
 func streamE2E(c *Ctx) {
 	phantomRequestProbe(c)
 	earlyFinishProbe(c)
 	requestReuseProbe(c)
+	failedSendProbe(c)
+	deepMessageProbe(c)
 	r := c.Rng
 	protos := []string{"connect", "grpc", "grpcweb"}
 	kinds := []string{"unary", "client", "server", "bidi"}
